@@ -804,7 +804,8 @@ def _sbytes_equal(self, l: Term, r: Term):
     """equality of two byte strings of known length in concrete-control scenarios: True / False when decided, else None.
     Decided: different lengths; identical terms; a position holding two different constants; and -- only when the scenario
     enables `mac_axiom` (the property's own MAC assumption) -- an aligned block that is a complete E_k(x) on both sides with
-    different (k, x): block-cipher outputs of different inputs are taken to differ."""
+    different (k, x), or a complete E_k(x) on one side and anything else on the other: block-cipher outputs are taken to differ
+    from the outputs of other inputs and from unrelated bytes."""
     li, ri = sb_items(l), sb_items(r)
     if li is None or ri is None:
         return None
@@ -828,6 +829,13 @@ def _sbytes_equal(self, l: Term, r: Term):
                 fb = all(x.op == "aesE" and x.args[0] is kb[0] and x.args[1] is kb[1] and x.args[2] == i for i, x in enumerate(ri[j:j + 16]))
                 if fa and fb and not (ka[0] is kb[0] and ka[1] is kb[1]):
                     return False
+        # a complete cipher block (a MAC) compared with 16 bytes that are not that very block: taken to differ
+        for j in range(0, len(li) - 15, 16):
+            for side, other in ((li, ri), (ri, li)):
+                a0 = side[j]
+                if a0.op == "aesE" and a0.args[2] == 0 and all(x.op == "aesE" and x.args[0] is a0.args[0] and x.args[1] is a0.args[1] and x.args[2] == i for i, x in enumerate(side[j:j + 16])):
+                    if any(p_ is not q_ for p_, q_ in zip(side[j:j + 16], other[j:j + 16])):
+                        return False
     return None
 
 
